@@ -1,5 +1,6 @@
 pub mod alpha;
 pub mod delta;
+pub mod exec;
 pub mod lex;
 pub mod monitor;
 pub mod trees;
